@@ -2,6 +2,8 @@ package harness
 
 import (
 	"errors"
+	"net/http"
+	"net/url"
 
 	"github.com/tigerwill90/fox"
 	"verif/harness/sym"
@@ -266,5 +268,100 @@ func HarnessC10Parse(st any) {
 	if err != nil {
 		sym.Assert(errors.Is(err, fox.ErrInvalidRoute), "rejection is ErrInvalidRoute")
 		sym.Assert(rte == nil, "no route on error")
+	}
+}
+
+// HarnessC10Round: every accepted pattern is routable: as the only route, a request formed by
+// substituting non-empty values for its wildcards is routed to it, the reported values reproduce the
+// request, and they are the substituted values when no catch-all is followed by further text.
+func HarnessC10Round() {
+	n := sym.Param("n")
+	p := sym.String("p", n)
+	g := refGrammar(p, 65535, 65535)
+	if g.v != gAccept {
+		return
+	}
+	r, err := fox.New()
+	if err != nil {
+		panic(err)
+	}
+	rte, err := r.Handle("GET", p, noopHandler)
+	sym.Assert(err == nil && rte != nil, "a pattern valid per the grammar registers on an empty router")
+	if err != nil {
+		return
+	}
+	// build the request by substituting values
+	toks := tokens(p)
+	host, path := "", ""
+	var want []kv
+	infixCatchAll := false
+	sawCatch := false
+	pos := 0 // byte position in the pattern, to know whether we are in the host part
+	for ti, t := range toks {
+		inHost := pos < g.hostEnd
+		var piece string
+		switch t.kind {
+		case tkStatic:
+			piece = p[pos : pos+1]
+			pos++
+			if sawCatch {
+				infixCatchAll = true
+			}
+		case tkParam:
+			vl := 1 + sym.Choose("vl"+string(rune('0'+ti)), 2)
+			v := sym.String("v"+string(rune('0'+ti)), vl)
+			for i := 0; i < len(v); i++ {
+				if inHost {
+					sym.Assume(v[i] != '.' && v[i] != ':' && v[i] != '[' && v[i] != ']' && v[i] != '/')
+				} else {
+					sym.Assume(v[i] != '/')
+				}
+			}
+			piece = v
+			want = append(want, kv{t.name, v})
+			pos += len(t.name) + 2
+			if sawCatch {
+				infixCatchAll = true
+			}
+		case tkCatch:
+			vl := 1 + sym.Choose("vl"+string(rune('0'+ti)), 3)
+			v := sym.String("v"+string(rune('0'+ti)), vl)
+			sym.Assume(v[0] != '/' && v[len(v)-1] != '/')
+			sym.Assume(!hasEmptySegment(v))
+			piece = v
+			want = append(want, kv{t.name, v})
+			pos += len(t.name) + 3
+			sawCatch = true
+		}
+		if inHost {
+			host += piece
+		} else {
+			path += piece
+		}
+	}
+	if hasEmptySegment(path) {
+		return // static "//" in the pattern: outside the request domain of C01
+	}
+	req := &http.Request{Method: "GET", Host: host, URL: &url.URL{Path: path}}
+	got, cc, tsr := r.Lookup(nil, req)
+	sym.Cover("round trip attempted")
+	if len(want) > 0 {
+		sym.Cover("round trip with wildcards")
+	}
+	if g.hostEnd > 0 {
+		sym.Cover("round trip with hostname")
+	}
+	sym.Assert(got == rte && !tsr && cc != nil, "the request built from the pattern is routed to it")
+	if got != rte || cc == nil {
+		return
+	}
+	ps := collectParams(cc)
+	cc.Close()
+	sub, ok := substitute(p, ps)
+	sym.Assert(ok && sub == host+path, "the reported values reproduce the request when substituted back")
+	if !infixCatchAll {
+		sym.Assert(sameParams(ps, want), "the reported values are exactly the substituted ones")
+	} else {
+		sym.Cover("catch-all followed by further text")
 	}
 }
